@@ -205,12 +205,127 @@ def check_free(chk, prop, cases):
         chk.sample({"statement_set": c["set"], "layout": c["layouts"][len(c["layouts"]) // 2]["lines"]})
 
 
+# ------------------------------------------------------------------ fixed form (C05)
+def fixed_line(lab, text):
+    return "%-5s %s" % (lab, text)
+
+
+def work_fixed(case):
+    from .. import fp
+    res = []
+    for lay in case["layouts"]:
+        pre = [fixed_line("", case["before"])] if case["before"] else []
+        post = [fixed_line("", case["after"])] if case["after"] else []
+        full = "\n".join(pre + lay["lines"] + post) + "\n"
+        r = {}
+        try:
+            rd = fp.reader(full, ignore_comments=True)
+            r["mode"] = rd.format.mode
+        except BaseException as e:  # noqa: BLE001
+            if isinstance(e, KeyboardInterrupt):
+                raise
+            r["mode"] = "error:" + type(e).__name__
+        o, t = fp.parse(fp.create("f2008"), full, ignore_comments=True)
+        r["o"] = o
+        r["sci"] = fp.struct(t, ci=True) if t is not None else None
+        res.append(r)
+    return {"id": case["id"], "res": res}
+
+
+def run_fixed(chk, tier, replay_set=None):
+    layouts.gen_tla(os.path.join(common.SPECS, "SourceForm_gen.tla"))
+    sets = [s for s in layouts.SETS if replay_set is None or s[0] == replay_set]
+    mb, mx, cc = (2, 1, "CC2") if tier == "quick" else (3, 2, "CC5")
+    jobs = []
+    for name, stmts, ctx in sets:
+        cfg = "_FixedForm_%s_%s.cfg" % (name, tier)
+        with open(os.path.join(common.SPECS, cfg), "w") as f:
+            f.write("SPECIFICATION Spec\nCONSTANTS\n  Stmts <- %s\n  MaxBreaks = %d\n  MaxExtras = %d\n  ContChars <- %s\nINVARIANT RoundTrip\nCONSTRAINT Dump\n" % (name, mb, mx, cc))
+        jobs.append((name, cfg, "MCFixedForm.tla"))
+    results = pmap(_tlc_form, jobs, chunksize=1, procs=4)
+    cases = []
+    for (name, stmts, ctx), (gen, dist, beh, viol, err) in zip(sets, results):
+        try:
+            os.remove(os.path.join(common.SPECS, "_FixedForm_%s_%s.cfg" % (name, tier)))
+        except OSError:
+            pass
+        if err:
+            raise MachineryError("TLC failed on FixedForm %s: %s" % (name, err))
+        chk.cov["states"] += dist
+        chk.cov["transitions"] += gen
+        chk.cov.setdefault("tlc_runs", []).append({"set": name, "distinct": dist, "layouts": len(beh)})
+        if viol:
+            chk.violation({"clause": "spec-" + viol}, "TLC: %s of FixedForm.tla violated for statement set %s" % (viol, name), {"set": name})
+        beh.sort(key=lambda b: json.dumps(b["lines"]))
+        cap = 900 if tier == "quick" else 10 ** 9
+        if len(beh) > cap:
+            step = len(beh) / float(cap)
+            beh = [beh[int(i * step)] for i in range(cap)]
+        lays = [{"lines": ["".join(l) for l in b["lines"]], "spans": b["spans"], "cmts": b["cmts"], "nb": b["nb"]} for b in beh]
+        canon = "\n".join(([ctx[0]] if ctx[0] else []) + [((lab + " ") if lab else "") + ((nm + ": ") if nm else "") + text for lab, nm, text in stmts]
+                          + ([ctx[1]] if ctx[1] else [])) + "\n"
+        for k in range(0, len(lays), 50):
+            cases.append({"id": len(cases), "set": name, "stmts": stmts, "before": ctx[0], "after": ctx[1], "layouts": lays[k:k + 50], "canon": canon})
+    return cases
+
+
+def _tlc_form(job):
+    name, cfg, spec = job
+    try:
+        r = tlc.run(spec, cfg, workers=4, timeout=6000, name="fx_" + name)
+    except tlc.TlcError as e:
+        return 0, 0, [], None, str(e)
+    return r.generated, r.distinct, r.beh, r.invariant_violated, r.error
+
+
+def check_fixed(chk, cases):
+    canon = {}
+    for c in cases:
+        canon.setdefault(c["set"], c["canon"])
+    cres = pmap(canonical_struct, [{"src": v, "id": k} for k, v in sorted(canon.items())], chunksize=1)
+    cstruct = {k: r for (k, _), r in zip(sorted(canon.items()), cres)}
+    res = pmap(work_fixed, [{k: c[k] for k in ("id", "before", "after", "layouts")} for c in cases], timeout=600)
+    for c, r in zip(cases, res):
+        if "__timeout__" in r or "__died__" in r:
+            chk.violation({"clause": "no-result"}, "C05: no result for fixed-form layouts of %s" % c["set"], {"set": c["set"]})
+            continue
+        for lay, x in zip(c["layouts"], r["res"]):
+            chk.count()
+            chk.cov["traces_validated_against_impl"] += 1
+            src = "\n".join(lay["lines"]) + "\n"
+            chk.distinct(src)
+            rp = {"set": c["set"], "lines": lay["lines"]}
+            if x["mode"] != "fix":
+                chk.violation({"clause": "not-detected-as-fixed", "set": c["set"]}, "C05: mode %s for fixed-form text\n%s" % (x["mode"], src), rp)
+            elif x["o"]["res"] != "ok":
+                o = x["o"]
+                chk.violation({"clause": "layout-not-accepted", "type": o.get("type"), "via": o.get("via")},
+                              "C05: fixed-form layout not accepted (%s):\n%s" % (o, src), rp)
+            elif x["sci"] != cstruct[c["set"]]["sci"]:
+                chk.violation({"clause": "tree-differs", "set": c["set"]}, "C05: tree differs from the free-form rendering:\n%s" % src, rp)
+    for c in cases[:: max(1, len(cases) // 3)][:3]:
+        chk.sample({"statement_set": c["set"], "fixed_form_layout": c["layouts"][len(c["layouts"]) // 2]["lines"]})
+
+
 def run(prop, tier=None, replay=None):
     chk = Check(prop, "model_checking", tier)
     tier = chk.tier
     rset = None
     if replay:
         rset = json.load(open(replay))["replay"].get("set")
+    if prop == "C05":
+        cases = run_fixed(chk, tier, rset)
+        chk.phase("generate")
+        check_fixed(chk, cases)
+        chk.phase("replay-statement-layouts")
+        if not replay:
+            program_fixed(chk, tier)
+            chk.phase("replay-programs")
+        chk.cov["exhaustive"] = tier != "quick"
+        chk.cov["rule"] = ("layouts = behaviours of FixedForm.tla for 12 statement sets (every wrap position incl. inside tokens and literals x continuation character x comment lines "
+                           "between x label adjustment x trailing comment); whole generated programs rendered in fixed form with three wrap widths; distinct_nontrivial = distinct texts")
+        chk.assumptions = ["Decode in FixedForm.tla is the statement of F2008 3.3.3", "no physical line ends in a significant blank (class restriction, DESIGN.md 4.3)"]
+        return chk.finish()
     if prop in ("C04", "C12"):
         cases = run_free(chk, prop, tier, rset)
         chk.phase("generate")
@@ -390,3 +505,90 @@ def reader_walks(chk, tier):
             elif [tuple(map(lambda v: tuple(v) if isinstance(v, list) else v, t)) for t in x["rest"]] != [tuple(map(lambda v: tuple(v) if isinstance(v, list) else v, t)) for t in exp_rest]:
                 chk.violation({"clause": "remaining-stream-differs", "walks": c["name"]}, "C12: after walk %s on %s the remaining stream is %s, expected %s" % (w["ops"], c["name"], x["rest"], exp_rest),
                               {"name": c["name"], "ops": w["ops"]})
+
+
+# ------------------------------------------------------------------ whole programs in fixed form (C05)
+def fixed_render(stmts, wrap, cont, cstyle, salt):
+    """Render logical statements in fixed form: wrap column, continuation character, comment style."""
+    lines = []
+    for k, s in enumerate(stmts):
+        lab = str(s["label"]) if s["label"] else ""
+        if (k + salt) % 3 == 0:
+            lab = lab.rjust(5)
+        text = ((s["cname"] + ": ") if s["cname"] else "") + s["text"]
+        ind = " " * min(2 * s["d"], 6)
+        text = ind + text
+        first = True
+        head = len(((s["cname"] + ": ") if s["cname"] else "")) + len(ind)
+        while True:
+            room = wrap - 6
+            if len(text) <= room:
+                chunk, text = text, ""
+            else:
+                cut = room
+                # never end a line in a blank, never cut directly after the construct name (known finding KF-C06-2)
+                while cut > 1 and (text[cut - 1] == " " or (first and cut <= head + 1)):
+                    cut -= 1
+                if cut <= 1 or (first and cut <= head + 1):
+                    cut = room
+                    while cut < len(text) and text[cut - 1] == " ":
+                        cut += 1
+                chunk, text = text[:cut], text[cut:]
+            lines.append(("%-5s " % lab if first else "     " + cont) + chunk)
+            if not text:
+                break
+            if (k + salt + len(lines)) % 5 == 0:
+                lines.append({"C": "C comment 'x", "c": "c comment", "*": "* star", "!": "! bang"}[cstyle])
+            first = False
+        if (k + salt) % 7 == 0:
+            lines.append({"C": "C between", "c": "c", "*": "*", "!": "!x"}[cstyle])
+    return "\n".join(lines) + "\n"
+
+
+def work_progfixed(case):
+    from .. import fp
+    out = {}
+    for name, src in case["srcs"].items():
+        try:
+            rd = fp.reader(src, ignore_comments=True)
+            mode = rd.format.mode
+        except BaseException as e:  # noqa: BLE001
+            if isinstance(e, KeyboardInterrupt):
+                raise
+            mode = "error"
+        o, t = fp.parse(fp.create("f2008"), src, ignore_comments=True)
+        out[name] = {"mode": mode, "o": o, "sci": fp.struct(t, ci=True) if t is not None else None}
+    return {"id": case["id"], "out": out}
+
+
+def program_fixed(chk, tier):
+    from .. import render
+    progs = programs.generate(chk, tier, chk.seed, ("sweep", "sim") if tier == "quick" else ("exh", "sweep", "sim"))
+    cases = []
+    for p in progs:
+        srcs = {"free": p["src"]}
+        variants = [(72, "1", "C"), (40, "&", "*"), (17, "x", "!")] if tier != "quick" else [[(72, "1", "C"), (40, "&", "*"), (17, "$", "c")][p["id"] % 3]]
+        for w, c, st in variants:
+            srcs["fix%d" % w] = fixed_render(p["stmts"], w, c, st, p["id"])
+        cases.append({"id": p["id"], "srcs": srcs})
+    res = pmap(work_progfixed, cases, timeout=300)
+    for c, r in zip(cases, res):
+        if "__timeout__" in r or "__died__" in r:
+            chk.violation({"clause": "no-result"}, "C05: no result for program %d" % c["id"], {"srcs": c["srcs"]})
+            continue
+        free = r["out"]["free"]
+        chk.count(len(c["srcs"]))
+        if free["mode"] != "free":
+            chk.violation({"clause": "free-not-detected-as-free"}, "C05: a free-form program starting in column 1 is detected as %s:\n%s" % (free["mode"], c["srcs"]["free"][:400]), {"srcs": c["srcs"]})
+        for name, x in r["out"].items():
+            if name == "free":
+                continue
+            chk.distinct(c["srcs"][name])
+            chk.cov["traces_validated_against_impl"] += 1
+            if x["mode"] != "fix":
+                chk.violation({"clause": "not-detected-as-fixed", "level": "program"}, "C05: fixed-form program detected as %s:\n%s" % (x["mode"], c["srcs"][name][:600]), {"srcs": c["srcs"], "which": name})
+            elif x["o"]["res"] != "ok":
+                chk.violation({"clause": "layout-not-accepted", "level": "program", "type": x["o"].get("type"), "via": x["o"].get("via")},
+                              "C05: fixed-form program not accepted (%s):\n%s" % (x["o"], c["srcs"][name][:800]), {"srcs": c["srcs"], "which": name})
+            elif free["o"]["res"] == "ok" and x["sci"] != free["sci"]:
+                chk.violation({"clause": "tree-differs", "level": "program"}, "C05: fixed-form program parses differently from its free-form text:\n%s" % c["srcs"][name][:800], {"srcs": c["srcs"], "which": name})
